@@ -29,7 +29,9 @@ import (
 func c11Patterns(tier string) []string {
 	atoms := []string{"a", "b", "x", "-", "]", "^", "{", "}", ",", "0", "1", ".", `\.`, `\d`, `\w`, "[ab]", "[^a]", "[a-c]", "[a]", "[{]", "[-]", "[0-9]", `[\d]`, "[a-a]", "aa", "ab",
 		"(a)", "(?:a)", "(ab)", `\,`, `\{`, "[}]", "[,]"}
-	ops := []string{"", "*", "+", "?", "*?", "{0}", "{1}", "{0,1}", "{1,}", "{0,}", "{2}", "{1,1}", "+?", "??", "{1}?", "{0}?", "{0,1}?", "{1,}?", "{2}?"}
+	ops := []string{"", "*", "+", "?", "*?", "{0}", "{1}", "{0,1}", "{1,}", "{0,}", "{2}", "{1,1}", "+?", "??", "{1}?", "{0}?", "{0,1}?", "{1,}?", "{2}?",
+		// counts Go's regexp does not take as repetitions (a leading zero makes the braces literal text) and equal bounds
+		"{01}", "{00}", "{0,01}", "{01,}", "{02,2}", "{2,2}"}
 	var terms []string
 	for _, a := range atoms {
 		for _, o := range ops {
